@@ -3,6 +3,22 @@ families = correspondence families (harness `gen <fam>`) with quick-tier op coun
 monitor = number of monitor cases in the quick tier (harness `monitor <id>`)."""
 
 PROPS = {
+    "C12": {
+        "families": {"admin": 20000},
+        "monitor": 900,
+        "assumptions": [
+            "the model carries the configuration record and the flag word; that the admin instructions do not touch anything else (shares, share values, vault keys, e-mode, oracle keys, fee buckets) is checked byte-for-byte on the real Bank through real dispatch by the C12 monitor against per-role field masks",
+            "role binding of each instruction is C08's table theorem admin_ix_role; the deleverage bracket (start/end) obeys C10's theorems with the risk admin as receiver",
+        ],
+    },
+    "C13": {
+        "families": {"admin": 20000, "curve": 6000},
+        "monitor": 1500,
+        "assumptions": [
+            "the consequence 'initial health >= 0 implies maintenance health >= 0' is proved on the risk model in C04 (init_implies_maint) from the coherence invariant established here",
+            "staked-settings propagation applies StakedSettings::validate (same weight clauses) — covered by the admin family only for the shared clauses",
+        ],
+    },
     "C08": {
         "families": {"signer": 3000},
         "monitor": 900,
@@ -90,6 +106,18 @@ _NOTE = ("Trusted: Lean kernel; axioms propext/Classical.choice/Quot.sound only 
          "and by diffing model vs real code on generated operations. ")
 
 MANIFEST_TEXT = {
+    "C12": {
+        "text": "Machine-checked Lean 4 theorems on the configuration model: on a frozen bank configure_bank changes only the two limits and keeps every flag (nobody can lift the freeze through it), interest-only does nothing, limits-only changes only the two limits; unfrozen: interest-only changes only interest_rate_config, limits-only only the three limits; Bank::configure changes only bits 2,3,5 of the 64-bit flag word and the emissions flag update replaces exactly bits 0,1 for EVERY 64-bit word (bit-level theorems over all flag words, not samples) and refuses any other bit; over EVERY history of deleverage withdrawals the exact whole-dollar sum since the last window reset never exceeds a non-zero daily limit (induction over arbitrary histories). Model diffed against the real Bank::configure / override_emissions_flag / update_withdrawn_equity (20k cases/run); the C12 monitor checks byte-level frames of the real instructions per role through real dispatch.",
+        "design_ref": "DESIGN.md §4 C12",
+        "note": _NOTE + "Two genuine defects found by this check were repaired (fix: 227a8aa7, 5468ffdc).",
+        "technique": "Lean 4 proof: frame theorems + bit-level (testBit) theorems over all 64-bit flag words + history induction; correspondence check; real-dispatch byte frames",
+    },
+    "C13": {
+        "text": "Machine-checked Lean 4 theorems: everything BankConfig::validate accepts is coherent (0<=aInit<=1, aInit<=aMaint<=2, 1<=lMaint<=lInit, isolated => zero asset weights, oracle age >= minimum, curve valid); everything Bank::configure accepts is coherent and can neither enter nor leave the killed state (iff theorem); the frozen path cannot touch the state; every non-empty e-mode entry accepted against a bank's liability weights has 0<=init<=maint, init<lInit, maint<lMaint and implied leverage within the group caps. Model diffed against the real validate/configure/validate_entries_with_liability_weights on 20k generated valid+invalid configurations per run; the C13 monitor re-checks the coherence predicate on the raw bank bytes after every successful configure / e-mode configure / e-mode clone through real dispatch. init=>maint health consequence: see C04.",
+        "design_ref": "DESIGN.md §4 C13",
+        "note": _NOTE + "Two genuine defects repaired (fix: c4018eda, 94a358f9); one recorded finding C13-F2 (add-pool accepts a killed initial state).",
+        "technique": "Lean 4 proof: validation-completeness theorems on the configuration model; correspondence check; real-dispatch invariant monitor",
+    },
     "C08": {
         "text": "Machine-checked Lean 4 theorems by decide over the account-constraint table REGENERATED from all 78 #[derive(Accounts)] structs on every run: the 15 account-operating user instructions carry both signer-rule constraints against a Signer (receivership admits third parties only for withdraw/repay/integration withdraws); 4 more are bound by has_one = authority; every other struct with a mutable margin account is a named special case; 31 administrative instructions carry has_one = <the specific role> with the role a Signer; every existing bank / margin account is has_one-bound to the instruction's group (named permissionless cranks excepted); every vault is seeds- or has_one-bound to the bank, vault authorities and the fee state are PDAs. The signer rule itself is characterised by an iff theorem. The C08 monitor replays (instruction x 7 signer identities x frozen x receivership), single-account substitutions (foreign group/bank/account/vault/authority) and admin instructions x roles through REAL DISPATCH against an independent specification; rejected instructions must leave the store byte-identical.",
         "design_ref": "DESIGN.md §4 C08",
